@@ -217,6 +217,12 @@ func (ch *channel) Receive(ctx async.Context) ([]byte, status.Status) {
 		// Await new message or close
 		select {
 		case <-ctx.Wait():
+			// Handlers pass the channel context, which is cancelled when the channel
+			// is closed. The messages queued before the close must still be received,
+			// the closed queue returns them and then the end status without blocking.
+			if ch.closed() {
+				continue
+			}
 			return nil, ctx.Status()
 		case <-wait:
 		}
@@ -268,6 +274,14 @@ func (ch *channel) ReceiveWait() <-chan struct{} {
 	defer ch.release()
 
 	return s.recvQueue.ReadWait()
+}
+
+// closed returns true if the channel is closed.
+func (ch *channel) closed() bool {
+	s := ch.acquire()
+	defer ch.release()
+
+	return s.closed.Load()
 }
 
 // Internal
